@@ -52,6 +52,9 @@ using namespace sim;
 
 static double now_s() { return std::chrono::duration<double>(std::chrono::steady_clock::now().time_since_epoch()).count(); }
 static std::string g_tmpdir;
+// Hang watchdogs for code without a step clock, in CPU seconds of the run: a worker's run is cut at g_cpu_worker and re-judged in a
+// fresh process with three times that allowance; only a run that exhausts the larger allowance as well is reported as nontermination.
+static double g_cpu_worker = 60, g_cpu_replay = 180;
 // CPU seconds (user+system) a process has consumed so far: watchdogs count CPU time, not wall time, so that a loaded
 // machine (other checks running beside this one) cannot turn a slow run into a "nontermination" verdict.
 static double cpu_s(pid_t pid) {
@@ -97,7 +100,7 @@ static void nonterm_exit() {
 static std::string classify_crash(const std::string &prop, const ChildOut &c) {
     const std::string &e = c.stderr_txt;
     std::string kind = "crash";
-    if (c.timed_out) return prop + "/nontermination:wall";
+    if (c.timed_out) return prop + "/nontermination:cpu";
     {   // FROZEN world: a const call wrote to frozen memory
         size_t w = e.find("OVMSIM-FROZEN-WRITE ");
         if (w != std::string::npos) {
@@ -139,7 +142,8 @@ static std::string classify_crash(const std::string &prop, const ChildOut &c) {
     return prop + "/" + kind + (site.empty() ? "" : "@" + site);
 }
 
-static ChildOut run_in_child(World *w, const Plan &plan, double timeout_s = 60) {
+static ChildOut run_in_child(World *w, const Plan &plan, double timeout_s = -1) {
+    if (timeout_s < 0) timeout_s = g_cpu_replay;
     ChildOut out;
     int pr[2], pe[2];
     if (pipe(pr) || pipe(pe)) { perror("pipe"); exit(2); }
@@ -269,7 +273,7 @@ struct Agg {
     std::vector<std::string> samples;
 };
 
-struct Candidate { uint64_t index; std::string cls; bool crashed; };
+struct Candidate { uint64_t index; std::string cls; bool crashed; bool watchdog = false; };
 
 static int cmd_run(int argc, char **argv) {
     std::string prop, tier = "quick", evidence, replays = "replays", known = "known_findings.txt";
@@ -296,13 +300,14 @@ static int cmd_run(int argc, char **argv) {
     if (!pi) { fprintf(stderr, "unknown property %s\n", prop.c_str()); return 2; }
     bool thorough = tier == "thorough";
     if (budget < 0) budget = thorough ? 600 : 45;
+    if (thorough) { g_cpu_worker = 600; g_cpu_replay = 1800; }
     World *w = make_world(prop);
     if (!w) { fprintf(stderr, "world %s not in this binary\n", pi->world); return 2; }
     double t_start = now_s();
     printf("ovmsim prop=%s world=%s tier=%s seed=%llu workers=%d budget=%.0fs\n", prop.c_str(), pi->world, tier.c_str(), (unsigned long long)master, workers, budget);
     fflush(stdout);
 
-    struct Worker { pid_t pid = -1; int fd = -1; uint64_t next = 0; std::string buf; long cur = -1; double last_io = 0, cpu0 = 0; bool done = false; bool killed_by_watchdog_stop = false; };
+    struct Worker { pid_t pid = -1; int fd = -1; uint64_t next = 0; std::string buf; long cur = -1; double last_io = 0, cpu0 = 0; bool done = false; bool killed_by_watchdog_stop = false; bool watchdog_fired = false; };
     bool stopping = false;
     std::vector<Worker> ws(workers);
     Agg agg;
@@ -378,7 +383,8 @@ static int cmd_run(int argc, char **argv) {
                     int status = 0;
                     waitpid(wk.pid, &status, 0);
                     if (!wk.done && wk.cur >= 0 && !stopping && !wk.killed_by_watchdog_stop) {   // died inside a run: sanitizer report, signal, step budget
-                        cands.push_back({(uint64_t)wk.cur, "", true});
+                        cands.push_back({(uint64_t)wk.cur, "", true, wk.watchdog_fired});
+                        wk.watchdog_fired = false;
                         agg.runs++;
                         agg.n["worker_restarts"]++;
                         wk.next = wk.cur + workers;
@@ -386,7 +392,8 @@ static int cmd_run(int argc, char **argv) {
                     }
                     --alive;
                 }
-            } else if (wk.cur >= 0 && now_s() - wk.last_io > 5 && (cpu_s(wk.pid) - wk.cpu0 > 90 || now_s() - wk.last_io > 2700)) {
+            } else if (wk.cur >= 0 && now_s() - wk.last_io > 5 && (cpu_s(wk.pid) - wk.cpu0 > g_cpu_worker || now_s() - wk.last_io > 2700)) {
+                wk.watchdog_fired = true;
                 kill(wk.pid, SIGKILL);  // hang watchdog (non-IO code has no step clock); confirmed by replay below
             }
         }
@@ -408,6 +415,7 @@ static int cmd_run(int argc, char **argv) {
         Plan plan = w->generate(prop, seed, thorough);
         ChildOut a = run_in_child(w, plan), b = run_in_child(w, plan);
         ++gated;
+        if (c.watchdog && !a.violation && !b.violation && a.loghash == b.loghash) { agg.n["slow_runs_cut_by_worker_watchdog"]++; continue; }   // slow, not hanging: finished within the larger allowance
         if (!a.violation || !b.violation || a.cls != b.cls || a.loghash != b.loghash || (!c.cls.empty() && a.cls != c.cls)) {
             printf("NONDETERMINISM prop=%s index=%llu seed=%llu first=%s/%llx second=%s/%llx worker=%s\n", prop.c_str(), (unsigned long long)c.index,
                    (unsigned long long)seed, a.cls.c_str(), (unsigned long long)a.loghash, b.cls.c_str(), (unsigned long long)b.loghash, c.cls.c_str());
